@@ -478,6 +478,21 @@ def _keys_values_job(ctype):
                                                 {'kind': 'keys', 'ctype': ctype}))
             if not same(make_cache(ctype, d).get('big'), big2):
                 res.violations.append(Violation(f'{ctype} cache: stored value does not round-trip', 'large array after forced rewrite', {'kind': 'keys', 'ctype': ctype}))
+            # a large entry that is not a plain numeric block (an object array holding a 9 MiB string): stored once, served from the file afterwards
+            calls = []
+
+            def big_obj():
+                calls.append(1)
+                return np.array(['x' * (9 * 2 ** 20), 'y'], dtype=object)
+            make_cache(ctype, d).get_or_compute('bigobj', big_obj)
+            v2 = make_cache(ctype, d).get_or_compute('bigobj', big_obj)
+            g2 = make_cache(ctype, d).get('bigobj')
+            res.add('evaluations', 3)
+            if len(calls) != 1 or g2 is NO_VALUE:
+                res.violations.append(Violation(f'{ctype} cache: intact stored value recomputed', f'object array with a 9 MiB string: computer called {len(calls)} time(s), get -> {"NO_VALUE" if g2 is NO_VALUE else "value"}',
+                                                {'kind': 'keys', 'ctype': ctype}))
+            elif not (v2.dtype == object and v2.shape == (2,) and v2[1] == 'y' and len(v2[0]) == 9 * 2 ** 20):
+                res.violations.append(Violation(f'{ctype} cache: stored value does not round-trip', 'object array with a 9 MiB string', {'kind': 'keys', 'ctype': ctype}))
         # every value of the domain
         for vi, v in enumerate(vals):
             if ctype == 'json_nonone' and v is None:
